@@ -200,6 +200,13 @@ func runC08(c *Ctx) {
 			cfg.CoreSize = 8000
 		}
 		cfg.Distance = 100
+		if r.Chance(1, 6) {
+			// a small core: what is fenced off by never-expanded blocks may well be longer than the core
+			cfg.CoreSize = r.Range(24, 80)
+			cfg.Length = cfg.CoreSize / 2
+			cfg.Distance = 0
+			c.Inc("programs_for_small_cores")
+		}
 		stratumBig := r.Chance(1, 5) // 13..40 expansions
 		outside := r.Chance(1, 6)    // references to block labels from outside the block
 		o := asm.GenOpts{Cfg: cfg, MaxLines: 2 + r.Intn(8), UseLabels: true, UseEqus: r.Chance(1, 2), UseFor: true, MaxForExp: 10, OutsideRef: outside, NestedLabel: r.Chance(1, 6)}
